@@ -435,7 +435,7 @@ func mainPaths(w *World, r *Run, rule string) ([]mainPath, *Engine, bool) {
 			r.Undecided(rule, fnMain, "", "anchor function not found in the type-checked program")
 			return nil, nil, false
 		}
-		e := w.engine(6, 1)
+		e := w.engine(6, 2) // two configuration entries: pairings by position can only go wrong from the second entry on
 		for _, o := range mainOpaque() {
 			e.opaque[o] = true
 		}
